@@ -525,6 +525,49 @@ def values(refresh=False):
     return _values
 
 
+def name_failures(chk, problems, mod):
+    """When the proof obligations of a check no longer hold: find out which tie theorems of Props/Limits/<mod>.lean fail
+    (their module is built alone and the error positions are mapped to theorem names) and put a message naming them — and
+    the constants they mention with the values the source currently has — in front of the problem list, so that a
+    `no-failing-input-found` replay names the theorem."""
+    if not problems:
+        return problems
+    try:
+        ok, text = core.lake_build([f"TinsModel.Props.Limits.{mod}"])
+        if ok:
+            return problems
+        path = os.path.join(VERIF, "lean", "TinsModel", "Props", "Limits", mod + ".lean")
+        lines = open(path).read().split("\n")
+        starts = [(i + 1, m.group(1)) for i, l in enumerate(lines) for m in [re.match(r"theorem\s+([A-Za-z0-9_.']+)", l)] if m]
+        failing = []
+        for m in re.finditer(r"error: \S*Props/Limits/" + mod + r"\.lean:(\d+):\d+:", text):
+            ln = int(m.group(1))
+            owner = [n for (a, n) in starts if a <= ln]
+            if owner and owner[-1] not in failing:
+                failing.append(owner[-1])
+        if not failing:
+            return problems
+        vals = values()
+        body = "\n".join(lines)
+        used = {}
+        for n in failing:
+            a = [i for i, (_, nm) in enumerate(starts) if nm == n][0]
+            end = starts[a + 1][0] - 1 if a + 1 < len(starts) else len(lines)
+            for c in re.findall(r"Limits\.(\w+)", "\n".join(lines[starts[a][0] - 1:end])):
+                if c in vals:
+                    used[c] = vals[c]
+        msg = (f"tie theorems of lean/TinsModel/Props/Limits/{mod}.lean that no longer check: " + ", ".join(failing) +
+               " — the source's current values of the constants they tie: " +
+               ", ".join(f"{k} = {v if v is not None else 'NOT FOUND'}" for k, v in sorted(used.items())))
+        problems.insert(0, msg)
+        pp = getattr(chk, "proof_problems", None)
+        if pp is not None and pp is not problems:
+            pp.insert(0, msg)
+    except Exception as e:      # naming is a convenience: never let it hide the failure itself
+        core.log(f"gen_limits.name_failures: {e!r}")
+    return problems
+
+
 def main(argv=None):
     global _values
     rows = extract()
